@@ -743,7 +743,7 @@ func runC17(tier string, args []string) {
 				progress := filepath.Join(work, fmt.Sprintf("c17-scen-p%d-g%d.progress", p, gen))
 				outFile := filepath.Join(work, fmt.Sprintf("c17-scen-p%d-g%d.out", p, gen))
 				cmd := exec.Command(os.Args[0], "c17scen", "quick", sf, progress)
-				cmd.Env = append(os.Environ(), "GORACE=halt_on_error=0 log_path="+filepath.Join(work, fmt.Sprintf("race-c17-p%d-g%d", p, gen)))
+				cmd.Env = append(os.Environ(), "GORACE=halt_on_error=0 exitcode=0 log_path="+filepath.Join(work, fmt.Sprintf("race-c17-p%d-g%d", p, gen)))
 				lastN, lastT := 0, time.Now()
 				res := child.Run(cmd, outFile, 30*time.Minute, func() bool {
 					n := len(readProgress(progress))
@@ -843,7 +843,7 @@ func runC17(tier string, args []string) {
 			defer func() { <-sem }()
 			out := filepath.Join(work, "c17-ramp-"+kind+".json")
 			cmd := exec.Command(os.Args[0], "c17ramp", "quick", kind, fmt.Sprint(c), out)
-			cmd.Env = append(os.Environ(), "GORACE=halt_on_error=0 log_path="+filepath.Join(work, "race-c17-ramp-"+kind))
+			cmd.Env = append(os.Environ(), "GORACE=halt_on_error=0 exitcode=0 log_path="+filepath.Join(work, "race-c17-ramp-"+kind))
 			outFile := filepath.Join(work, "c17-ramp-"+kind+".out")
 			res := child.Run(cmd, outFile, 40*time.Minute, nil)
 			mu.Lock()
